@@ -46,6 +46,7 @@ CHECKS["C05"] = {
     "jobs": [
         rapid_job("tuples", "./verifh/c05", "TestMaskedWrite", 20000, 120000),
         rapid_job("sequences", "./verifh/c05", "TestWriteSequence", 6000, 40000),
+        {"name": "fuzz-maskedwrite", "pkg": "./verifh/c05", "run": "^$", "rapid": False, "fuzz": "FuzzMaskedWrite", "fuzztime": {T: 240}, "tiers": (T,), "shards": {T: 1}},
     ],
 }
 
@@ -82,7 +83,9 @@ CHECKS["C16"] = {
 CHECKS["C17"] = {
     "rule": ("bounded-exhaustive: member counts 0..4 x every success/failure vector x every completion order x 7 strategies x {Execute, direct function}, completion order owned by the "
              "harness (members gated on channels, next member released only after the previous one's goroutine has gone); plus rapid-drawn groups of up to 8 members with "
-             "cancellation-aware members. Oracle = the documented contract evaluated on (outcomes, order): verdict, returned error = first observed, results at own index, "
+             "cancellation-aware members and failing members whose errors are plain, wrap context.Canceled / DeadlineExceeded, are a Canceled status or io.EOF; plus the trait groups built on pkg/group "
+             "(lightpb.Group, onoffpb.Group; Get and Update) with harness-gated fake member clients (every member called with its own name and the caller's request otherwise intact, caller's request not "
+             "modified). Oracle = the documented contract evaluated on (outcomes, order): verdict, returned error = first observed, results at own index, "
              "One runs nothing after the first success, contexts cancelled exactly once the outcome is decided, no panic, no pkg/group goroutine left. "
              "non-trivial = >=2 members with mixed outcomes and a non-identity completion order; distinct by (strategy, outcomes, order, flags)"),
     "all_exhaustive": False,
@@ -90,6 +93,7 @@ CHECKS["C17"] = {
     "jobs": [
         enum_job("exhaustive", "./verifh/c17", "TestGroupExhaustive", timeout={Q: 600, T: 1800}),
         rapid_job("random", "./verifh/c17", "TestGroupRandom", 1500, 8000, shards_t=8),
+        rapid_job("trait-groups", "./verifh/c17", "TestTraitGroups", 800, 5000, shards_t=8),
     ],
 }
 
@@ -161,9 +165,10 @@ CHECKS["C09"] = {
     "jobs": [
         enum_job("merge-exh", "./pkg/resource", "TestVerifC09MergeExhaustive", shards={Q: 4, T: 16}, timeout={Q: 600, T: 3000}),
         enum_job("dropexcess-exh", "./verifh/c09", "TestDropExcessExhaustive", timeout={Q: 600, T: 3000}),
-        rapid_job("lossy-api", "./verifh/c09", "TestLossyCollectionPull|TestLossyValuePull", 2000, 15000, timeout={Q: 240, T: 1200}),
+        rapid_job("lossy-api", "./verifh/c09", "TestLossyCollectionPull|TestLossyValuePull|TestLossySubscribersSideBySide", 2000, 15000, timeout={Q: 240, T: 1200}),
         rapid_job("lockstep", "./verifh/c09", "TestBackpressureLockstep", 500, 3000, shards_t=4),
         enum_job("send-timeout", "./verifh/c09", "TestBackpressureSendTimeout"),
+        enum_job("slow-consumer", "./verifh/c09", "TestBackpressureSlowCollectionConsumer"),
     ],
 }
 
@@ -347,7 +352,7 @@ CHECKS["C14"] = {
     "assumptions": ["keyed resources (extra scalar request fields such as an id) are listed in the evidence notes and not driven generically", "tolerances in the tree are <= 0.1 for floats and 1s for times",
                     "real-time behaviour (tweens) is left at its zero default"],
     "jobs": [
-        rapid_job("triples", "./verifh/c14", "TestTripleSweep", 300, 1500, shards={"quick": 4, "thorough": 16}, timeout={"quick": 400, "thorough": 2400}),
+        rapid_job("triples", "./verifh/c14", "TestTripleSweep", 1500, 8000, shards={"quick": 8, "thorough": 16}, timeout={"quick": 600, "thorough": 3000}),
     ],
 }
 
